@@ -15,7 +15,7 @@ contract("monkeytype.cli:display_sample_count", props=["C10"], theories=TH, mode
 _THUNKS = "stored(config_store(args_config(args)), args_module(args), args_qualname(args), args_limit(args))"
 _N = "len(%s)" % _THUNKS
 _NOOP = "noop_rewriter()"
-contract("monkeytype.cli:get_stub", props=["C10", "C01", "C06", "C14"], theories=TH, pure=False, effects="print",
+contract("monkeytype.cli:get_stub", props=["C10", "C01", "C06", "C14", "C13"], theories=TH, pure=False, effects="print",
          params={"args": "Args", "stdout": "Stream", "stderr": "Stream"}, result="Opt[ModuleStub]",
          ensures={
              # the stub is built from exactly the decodable traces, in store order, with the configured k / rewriter / strategy
